@@ -82,8 +82,23 @@ type done struct {
 
 // execCase runs the case in its own goroutine under recover() and the watchdog.
 func execCase(c Case) outcome {
+	if c.Kind == "seed" {
+		// a failure while building the seed set: rebuild it (every step is guarded) and report the same step
+		s := loadSeeds()
+		for _, f := range s.fails {
+			if f.Case.Note == c.Note {
+				return outcome{nontrivial: true, fail: f}
+			}
+		}
+		return outcome{}
+	}
+	return execFunc(c, func() bool { return runCase(c) })
+}
+
+// execFunc runs f in its own goroutine under recover() and the watchdog; c labels the failure.
+func execFunc(c Case, f func() bool) outcome {
 	ch := make(chan done, 1)
-	go caseGoroutine(c, ch)
+	go caseGoroutine(f, ch)
 	select {
 	case d := <-ch:
 		if d.panicked != nil {
@@ -106,7 +121,7 @@ func execCase(c Case) outcome {
 	}
 }
 
-func caseGoroutine(c Case, ch chan done) {
+func caseGoroutine(f func() bool, ch chan done) {
 	var d done
 	defer func() {
 		if r := recover(); r != nil {
@@ -115,7 +130,7 @@ func caseGoroutine(c Case, ch chan done) {
 		}
 		ch <- d
 	}()
-	d.nontrivial = runCase(c)
+	d.nontrivial = f()
 }
 
 var frameRe = regexp.MustCompile(`(?m)^(github\.com/moov-io/ach[^\s(]*(?:\([^)]*\))?[^\s(]*)\(`)
